@@ -87,7 +87,7 @@ fn subsets(ctx: &mut Ctx) {
                             let want_succ = m.ones.get(q).map(|x| (q, *x));
                             ctx.expect_eq("supports.pred_succ_first.predecessor", || format!("predecessor({}) right after enable_pred_succ() on a {} written with supports {:03b}", a, what(), subset), &guard(|| cur.predecessor(a).next()), &want_pred);
                             ctx.expect_eq("supports.pred_succ_first.successor", || format!("successor({}) right after enable_pred_succ() on a {} written with supports {:03b}", a, what(), subset), &guard(|| cur.successor(a).next()), &want_succ);
-                            ctx.expect_eq("supports.pred_succ_first.rank", || format!("rank({}) right after enable_pred_succ() on a {} written with supports {:03b}", a, what(), subset), &guard(|| cur.rank(a)), &q);
+                            if got.1 { ctx.expect_eq("supports.pred_succ_first.rank", || format!("rank({}) right after enable_pred_succ() on a {} written with supports {:03b}", a, what(), subset), &guard(|| cur.rank(a)), &q); }
                         }
                         let _ = guard(|| { cur.enable_select_zero(); cur.enable_rank(); cur.enable_select(); });
                         ctx.checks += 1;
